@@ -100,25 +100,24 @@ def prove(hyps, goal, budget_s=20.0, want_model=True):
         return "unsat", None, "simplify", 0.0
     neg = z3.Not(goal)
     uf = T.has_uf(list(hyps) + [goal])
-    plan = []
-    if uf:
-        # purified attempt first: pure nonlinear real arithmetic, decided by nlsat
-        try:
-            ph = purify(list(hyps) + [neg])
-            r, m, dt = _check(ph[:-1], ph[-1], min(budget_s, 3.0) * 1000, "nlsat")
-            if r == "unsat":
-                return "unsat", None, "z3-nlsat(purified)", dt
-        except z3.Z3Exception:
-            pass
-    if not uf:
-        plan.append(("nlsat", min(budget_s, 2.0)))
-    plan.append(("default", min(budget_s, 2.0)))
-    if not uf:
-        plan.append(("nlsat", budget_s))
-    plan.append(("default", budget_s))
     total = 0.0
-    last = "unknown"
+    ph = None
+    if uf:
+        try:
+            ph = purify(list(hyps) + [neg])      # pure nonlinear real arithmetic (congruence forgotten): unsat here implies unsat of the original
+        except z3.Z3Exception:
+            ph = None
+    plan = [("pnlsat", min(budget_s, 3.0)), ("default", min(budget_s, 2.0)), ("pnlsat", budget_s), ("default", budget_s)] if uf else \
+           [("nlsat", min(budget_s, 2.0)), ("default", min(budget_s, 2.0)), ("nlsat", budget_s), ("default", budget_s)]
     for strat, b in plan:
+        if strat == "pnlsat":
+            if ph is None:
+                continue
+            r, m, dt = _check(ph[:-1], ph[-1], b * 1000, "nlsat")
+            total += dt
+            if r == "unsat":
+                return "unsat", None, "z3-nlsat(purified)", total
+            continue        # a model of the purified formula is not a model of the original
         r, m, dt = _check(hyps, neg, b * 1000, strat)
         total += dt
         if r == "unsat":
@@ -141,7 +140,10 @@ def fp_bump_effective(meta):
         if meta.get("base_num") is not None:
             s.add(b == z3.FPVal(float(Fraction(meta["base_num"])), sort))
         s.add(z3.Not(z3.fpIsNaN(b)), z3.Not(z3.fpIsInf(b)))
-        s.add(z3.Not(z3.fpGT(z3.fpAdd(z3.RNE(), b, e), b)))
+        if meta.get("base_abs_le") is not None:
+            s.add(z3.fpLEQ(z3.fpAbs(b), z3.FPVal(float(meta["base_abs_le"]), sort)))
+        moved = z3.fpGT(z3.fpAdd(z3.RNE(), b, e), b) if eps > 0 else z3.fpLT(z3.fpAdd(z3.RNE(), b, e), b)
+        s.add(z3.Not(moved))
         r = s.check()
         if r != z3.unsat:
             return {"status": str(r), "backend": "z3-fp(" + nm + ")", "time": time.time() - t0, "model": s.model() if r == z3.sat else None,
@@ -157,6 +159,22 @@ def discharge(ob, ctx, budget_s=20.0):
     total = 0.0
     backend = ""
     for g in goals:
+        # first attempt: only the hypotheses that speak exclusively about symbols of the goal (and of its relevant axioms).
+        # A subset of the hypotheses, hence sound; irrelevant polynomial facts are what makes nlsat slow.
+        try:
+            gax = relevant_axioms(ctx.axioms, [g])
+            gs = set(T.base_symbols(g))
+            for a_ in gax:
+                gs |= T.base_symbols(a_)
+            nar = [f for f in ob.hyps if T.base_symbols(f) <= gs]
+            if len(nar) < len(ob.hyps):
+                st0, _, be0, dt0 = prove(nar + gax, g, min(budget_s, 2.0))
+                total += dt0
+                if st0 == "unsat":
+                    backend = be0 + "(narrow)"
+                    continue
+        except z3.Z3Exception:
+            pass
         ax = relevant_axioms(ctx.axioms, list(ob.hyps) + [g])
         st, m, be, dt = prove(list(ob.hyps) + ax, g, budget_s)
         total += dt
